@@ -195,6 +195,19 @@ func Verif_H04GC() {
 	}
 	checkAll(s, keys, m, "end")
 	checkIter(s, keys, m, "end")
+	if vrt.Param("crashcopy", 0) != 0 {
+		// C03 at the end of a history with GC cycles: once Flush has returned, a crash
+		// (here: a copy of the directory taken while the store is still open) loses nothing
+		// that was acknowledged before the flush
+		vrt.Assert(s.Flush() == nil, "flush-no-error", "where", "end")
+		img := vrt.CopyDir(dir)
+		r, err := openCfg(img, c)
+		vrt.Assert(err == nil, "recovery-open-succeeds", "where", "copy-after-flush")
+		if err == nil {
+			checkAll(r, keys, m, "crash-copy-after-completed-flush")
+			vrt.Assert(r.Close() == nil, "close-recovered-no-error")
+		}
+	}
 	if vrt.Param("endfsck", 0) != 0 {
 		// the independent reader of the file formats, including "no orphan records"
 		// (set orphans=1): GC must not leave anything that nothing can release
